@@ -1534,6 +1534,108 @@ def sbs_oracles(ctx, rep):
 
 
 
+# --------------------------------------------------------------------------- B9: names with spaces, quotes, several dots
+
+def git_quote(path):
+    """(token for `a/<path>` as git prints it, needs a trailing TAB on ---/+++ lines)"""
+    special = any(ch in path for ch in '"\\\t\n') or any(ord(ch) > 127 for ch in path)
+    if special:
+        out = ""
+        for b in path.encode("utf-8"):
+            ch = chr(b)
+            if ch in '"\\':
+                out += "\\" + ch
+            elif b > 127 or b < 32:
+                out += "\\%03o" % b
+            else:
+                out += ch
+        return out, True, False
+    return path, False, " " in path
+
+
+def git_section(path, mode):
+    """Header lines of a git file section for a path that may need quoting / a TAB terminator."""
+    body, quoted, tab = git_quote(path)
+    tok = (lambda pre: '"%s/%s"' % (pre, body)) if quoted else (lambda pre: "%s/%s" % (pre, body))
+    t = "\t" if tab else ""
+    lines = ["diff --git %s %s" % (tok("a"), tok("b"))]
+    if mode == "add":
+        lines += ["new file mode 100644", "index 0000000..2222222", "--- /dev/null", "+++ " + tok("b") + t]
+    elif mode == "delete":
+        lines += ["deleted file mode 100644", "index 1111111..0000000", "--- " + tok("a") + t, "+++ /dev/null"]
+    else:
+        lines += ["index 1111111..2222222 100644", "--- " + tok("a") + t, "+++ " + tok("b") + t]
+    return lines
+
+
+WEIRD = ["qz xa", "qz  x a", "my dir/qz xa", 'qz"xa', "qzxa\u00e9\u65e5", "qzxa.tar.min", "qz xa.v1.2", "dir.d/qz\txa"]
+
+
+def weird_name_oracles(ctx, rep):
+    rng = ctx.rng
+    themes = list_themes(ctx)
+    ext_langs = [(l, pat) for l, d in LANGS.items() if l != "plain" for pat in d["names"] if pat.startswith("%s.")]
+    jobs = []
+    for _ in range(ctx.n(40, 600)):
+        lang, pat = rng.choice(ext_langs)
+        mode = rng.choice(["delete", "delete", "add", "modify"])
+        stem = rng.choice(WEIRD)
+        weird, plain = pat % stem, pat % "wvub"
+        hunks = gen_hunks(rng, lang, "modify" if mode == "modify" else mode)
+        style = rng.choice(["sbs", "minus-syntax", "palette"])
+        tc = rng.choice(["always", "never"])
+        args = ["--syntax-theme", rng.choice(themes["dark"]), "--true-color", tc, "--width", "200"]
+        if style == "sbs":
+            args += ["--side-by-side"]
+        elif style == "minus-syntax":
+            args += ["--minus-style", "syntax 52", "--minus-emph-style", "syntax 88", "--plus-style", "syntax 22"]
+        else:
+            args += gen_config(rng, "syntax-all", tc)[0]
+        mk = lambda lines: ("\n".join(lines) + "\n").encode()
+        runs = [(args, mk(git_section(plain, mode) + hunks), None), (args, mk(git_section(weird, mode) + hunks), None)]
+        jobs.append(dict(runs=runs, weird=weird, plain=plain, mode=mode, lang=lang, style=style, kind="git"))
+    # plain `diff -u` input: the name comes from the raw header line
+    for _ in range(ctx.n(6, 60)):
+        lang, pat = rng.choice(ext_langs)
+        mode = rng.choice(["delete", "modify"])
+        weird, plain = pat % rng.choice(["qz xa", "my dir/qz xa"]), pat % "wvub"
+        hunks = gen_hunks(rng, lang, mode)
+        ts = "\t2020-01-01 00:00:00.000000000 +0000"
+        args = ["--syntax-theme", rng.choice(themes["dark"]), "--true-color", "never", "--width", "200",
+                "--minus-style", "syntax 52", "--plus-style", "syntax 22"]
+        hdr = lambda n: ["--- " + n + ts, "+++ " + ("/dev/null" if mode == "delete" else n) + ts]
+        mk = lambda lines: ("\n".join(lines) + "\n").encode()
+        runs = [(args, mk(hdr(plain) + hunks), None), (args, mk(hdr(weird) + hunks), None)]
+        jobs.append(dict(runs=runs, weird=weird, plain=plain, mode=mode, lang=lang, style="minus-syntax", kind="diff-u"))
+    flat = [r for j in jobs for r in j["runs"]]
+    results = parallel_map(lambda r: run_case(ctx, r[0], r[1], r[2]), flat)
+    for n, j in enumerate(jobs):
+        res = results[2 * n:2 * n + 2]
+        rep.count("names:%s:%s" % (j["kind"], j["mode"]))
+        if any(r[0] != 0 for r in res):
+            rep.count("binary:nonzero-exit")
+            continue
+        coloured = len({it[2] for row in decode(res[0][1]) for it in row if it[0] == "c"}) > 3
+        rep.case(key=("b9", sha(j["runs"][1][1]), tuple(j["runs"][1][0])), nontrivial=coloured,
+                 sample=dict(op="binary-name-shapes", name=j["weird"], mode=j["mode"], input=j["kind"], args=j["runs"][0][0]))
+
+        def evaluate(res, sink, j=j):
+            if any(r[0] != 0 for r in res):
+                return
+            if j["kind"] == "diff-u" and j["mode"] == "delete":
+                sig = "language:plain-diff-deleted-file-name-with-space"
+            elif j["kind"] == "diff-u":
+                sig = "language:plain-diff-name-shape-changes-colouring"
+            else:
+                sig = "language:%s-file-name-shape-changes-colouring" % j["mode"]
+            compare_rows(sink, sig,
+                         "%s file %r (%s input) is not coloured like the same content named %r" % (
+                             j["mode"], j["weird"], j["kind"], j["plain"]),
+                         res[0][1], res[1][1], ["qz", "xa", "wvub"], j["runs"], mode=j["mode"])
+        confirm(ctx, rep, j["runs"], res, evaluate)
+
+
+
 def run(ctx, rep):
     rep.rule = ("hook level: random (syntect sections, diff sections) over an alphabet with non-ASCII, zero-width, "
                 "tab and newline characters, random partitions incl. empty sections, trailing-newline variants, "
@@ -1557,6 +1659,7 @@ def run(ctx, rep):
     binary_oracles(ctx, rep)
     lifetime_oracles(ctx, rep)
     sbs_oracles(ctx, rep)
+    weird_name_oracles(ctx, rep)
 
 
 def replay(ctx, rep, obj):
